@@ -65,6 +65,8 @@ pub struct CmdPers {
     // device-side facts
     pub display: (u32, u32),
     pub edid: Vec<u8>,
+    /// size field of the EDID response (None: length of `edid`)
+    pub edid_size: Option<u32>,
     pub clock: u64,
     pub streams: u32,
     pub jacks: u32,
@@ -184,7 +186,7 @@ impl Personality for CmdPers {
                     data.extend(1u32.to_le_bytes());
                     data.extend(0u32.to_le_bytes());
                 } else if ty == 0x10a {
-                    data.extend((self.edid.len() as u32).to_le_bytes());
+                    data.extend(self.edid_size.unwrap_or(self.edid.len() as u32).to_le_bytes());
                     data.extend(0u32.to_le_bytes());
                     let mut e = self.edid.clone();
                     e.resize(1024, 0);
@@ -406,10 +408,49 @@ fn drive_gpu<T: Transport>(t: T, p: &CmdParams, rng: &mut SmallRng) -> String {
                 unit(g.move_cursor(x, y));
             }
             _ => {
+                // what the device will report: random blobs, structured ones (unused entries,
+                // equal pixel counts, zero active pixels), sizes around the base-block boundary
+                let mut blob = vec![0u8; 1024];
+                match rng.gen_range(0..3) {
+                    0 => rng.fill(&mut blob[..]),
+                    1 => {
+                        for i in 0..8 {
+                            let (b0, b1) = match rng.gen_range(0..5) {
+                                0 => (1u8, 1u8),
+                                1 => (0xd1, [0x00u8, 0x40, 0x80, 0xc0][rng.gen_range(0..4)] | rng.gen_range(0..64u8)),
+                                2 => (1, rng.r#gen()),
+                                3 => (rng.r#gen(), 1),
+                                _ => (rng.r#gen(), rng.r#gen()),
+                            };
+                            blob[38 + 2 * i] = b0;
+                            blob[39 + 2 * i] = b1;
+                        }
+                        for k in 0..18 {
+                            blob[54 + k] = if rng.gen_bool(0.3) { 0 } else { rng.r#gen() };
+                        }
+                        if rng.gen_bool(0.2) { blob[54 + 2] = 0; blob[54 + 4] &= 0x0f; }
+                        if rng.gen_bool(0.2) { blob[54 + 5] = 0; blob[54 + 7] &= 0x0f; }
+                    }
+                    _ => blob.iter_mut().for_each(|b| *b = [0u8, 1, 0xff][rng.gen_range(0..3)]),
+                }
+                let size: u32 = [0u32, 1, 127, 128, 129, 256, 1024, 1025, 0xffff, 0x1_0000, 0x7fff_ffff, 0xffff_ffff][rng.gen_range(0..12)];
+                with_engine(|e| {
+                    let p = e.pers_mut::<CmdPers>();
+                    p.edid = blob.clone();
+                    p.edid_size = Some(size);
+                });
                 script(rng, 0.3, 1, &errs);
                 dev(json!({"e":"Call","op":"get_edid"}));
                 match g.get_edid(0) {
-                    Ok(_) => dev(json!({"e":"Ret","ok":true})),
+                    Ok(ed) => {
+                        dev(json!({"e":"Ret","ok":true}));
+                        let pref = match ed.preferred_resolution() {
+                            Ok((w, h)) => json!({"ok":true,"w":w,"h":h}),
+                            Err(e) => json!({"ok":false,"err":format!("{:?}", e)}),
+                        };
+                        let modes: Vec<Value> = ed.standard_timings().iter().map(|(w, h)| json!([w, h])).collect();
+                        dev(json!({"e":"Edid","size":[size & 0xffff, size >> 16],"st":blob[38..54],"dtd":blob[54..72],"pref":pref,"modes":modes}));
+                    }
                     Err(e) => dev(json!({"e":"Ret","ok":false,"err":format!("{:?}", e)})),
                 }
             }
@@ -548,7 +589,7 @@ pub fn run(p: &CmdParams, sc: &str) -> (Vec<Vec<String>>, Value) {
     let mut rng = SmallRng::seed_from_u64(p.seed);
     let zoo_kind = match p.kind.as_str() { "soundooo" => "sound", k => k };
     let display = [(1024u32, 768u32), (1, 1), (1920, 1080), (640, 480)][rng.gen_range(0..4)];
-    let pers = CmdPers { kind: p.kind.clone(), script: VecDeque::new(), seq: p.seed, display, edid: vec![0x11; 128], clock: p.seed,
+    let pers = CmdPers { kind: p.kind.clone(), script: VecDeque::new(), seq: p.seed, display, edid: vec![0x11; 128], edid_size: None, clock: p.seed,
                          streams: 2, jacks: 2, chmaps: 1, ooo: p.kind == "soundooo" };
     engine::install(Box::new(pers), policy_of(&p.policy), p.seed ^ 0x20, true);
     if zoo_kind == "sound" {
@@ -586,7 +627,7 @@ pub fn run(p: &CmdParams, sc: &str) -> (Vec<Vec<String>>, Value) {
     };
     let segs = queue_segments(sc);
     engine::uninstall();
-    let keep = ["CmdReset", "Call", "Ret", "DevCmd", "DevTx", "DevDone", "DmaAlloc", "DmaDealloc", "Panic", "Stuck", "Drop", "QAdd", "QPop", "\"op\":\"set_status\"", "\"op\":\"drop\""];
+    let keep = ["CmdReset", "Call", "Ret", "Edid", "DevCmd", "DevTx", "DevDone", "DmaAlloc", "DmaDealloc", "Panic", "Stuck", "Drop", "QAdd", "QPop", "\"op\":\"set_status\"", "\"op\":\"drop\""];
     let dlines: Vec<String> = with_world(|w| {
         let l = w.d_lines(&[]).into_iter().filter(|l| keep.iter().any(|k| if k.starts_with('"') { l.contains(k) } else { l.contains(&format!("\"e\":\"{}\"", k)) })).collect();
         w.trace.clear();
